@@ -423,6 +423,10 @@ func IfFunc(query *Query, current Map, functionOptions *FunctionOptions, args []
 	if err != nil {
 		return nil, err
 	}
+	if condition == nil {
+		// a NULL condition is not true
+		condition = new(bool)
+	}
 	whenTrue, err := AsType[any](args[1])
 	if err != nil {
 		return nil, err
